@@ -23,7 +23,8 @@ REASONS = [
      "slices of the redirect option at idx / idx+1 where idx = memrchr(b':') (1-byte ASCII hit on the same "
      "string), or full-range slices", None),
     (r"^blocker::Blocker::apply_removeparam$", r"^index\|", "local",
-     "indices come from memchr(b'?') / memchr(b'#') on the same string (1-byte ASCII hits), +1, or len(); "
+     "indices come from memchr(b'?') / memchr(b'#') on the same string (1-byte ASCII hits), +1, or len(); the `?` "
+     "is searched in url[..fragment_start] (fragment_start = first `#` or len), so i < fragment_start and "
      "begin <= end by construction (hash_index = params_start + j)", None),
     (r"^blocker::Blocker::tags_with_set::\{closure#0\}$", r"^unwrap\|", "local",
      "n.tag.unwrap() is evaluated only after n.tag.is_some() (short-circuit &&)", None),
@@ -124,8 +125,9 @@ REASONS = [
      "filters[self.index] after the index < len test", None),
     # ------------------------------------------------------------------ filters/network_matchers.rs
     (r"^filters::network_matchers::is_anchored_by_hostname$", r".", "input-shape",
-     "offsets are filter_hostname.len(), a memmem::find hit and hit-1 (taken only when hit != 0) on the request "
-     "hostname; " + ASCII_HOST + "; filter_hostname.len() < hostname.len() on these branches", None),
+     "offsets are filter_hostname.len(), a memmem::find hit, hit + filter_hostname.len() (the end of that match, "
+     "<= hostname.len()) and hit-1 (taken only when hit != 0) on the request hostname; start and end of a substring "
+     "match are char boundaries; " + ASCII_HOST + "; filter_hostname.len() < hostname.len() on these branches", None),
     (r"^filters::network_matchers::check_pattern_regex_filter_at$", r".", "input-shape",
      "start_from is 0 or memmem::find(url, filter_hostname) + len after is_anchored_by_hostname succeeded, i.e. "
      "the filter hostname occurs in the request hostname, which occurs in the URL; " + ASCII_HOST, None),
